@@ -43,7 +43,7 @@ func init() {
 				tagP = 0
 			}
 			c.Rules = genRules(t, 2, 8, 15, tagP, 50)
-			c.Builds = genBuilds(t, len(c.Rules))
+			genBuildsReplacing(t, c)
 			c.Pool = rapid.Bool().Draw(t, "pool")
 			if c.Pool {
 				genPoolSize(t, c)
